@@ -183,6 +183,21 @@ def standard_cases(rng, n_opt_random, n_all, reps=1):
     return cases
 
 
+def corpus_cases(prop):
+    """minimised failing inputs recorded before the repairs (committed under /verif/corpus/report):
+    replayed first on every run"""
+    import glob
+    out = []
+    for f in sorted(glob.glob(os.path.join(vlib.VERIF, 'corpus', 'report', '%s-*.json' % prop))):
+        try:
+            c = json.load(open(f))['input']
+        except Exception:
+            continue
+        if isinstance(c, dict) and 'maps' in c:
+            out.append(mk_case(c['mode'], c['maps'], 'corpus:' + os.path.basename(f)))
+    return out
+
+
 def reorder(rng, case):
     """the same set of findings, inserted in another order (patterns and vectors shuffled)"""
     c = json.loads(json.dumps(case))
